@@ -438,6 +438,54 @@ Theorem byte_ladder_adds_nothing : forall pol t,
 Proof. exact wire_ladder_adds_nothing. Qed.
 Print Assumptions byte_ladder_adds_nothing.
 
+(* RELAY ADMISSION (session 5).  tree_perms says what each node's OWN writer may do.  The code has one more
+   way into the shared state: a denial an internal sub-query brought back is handed up with its provenance
+   (Cache.additionalAnswer -> PropagateValidatedDenialResponse) and every writer on the way up runs the
+   admission guard on it with its own flags; the stores refuse a proof whose own CD bit is set.
+   tree_records is that: per node, whether the denial learnt there ends up shared.  The property's clause
+   holds for it at full strength — no weaker conclusion, no extra premise: for every policy, starting
+   context and tree, if the root message carried CD or a subnet option NOTHING learnt anywhere in the tree
+   is recorded, neither by the node that learnt it nor by a writer that relays it *)
+Theorem ecs_or_cd_tree_records_no_shared_denial : forall pol t ctx,
+  root_isolated t = true -> Forall (fun r => r = false) (tree_records pol ctx false t).
+Proof. exact isolated_tree_records_nothing. Qed.
+Print Assumptions ecs_or_cd_tree_records_no_shared_denial.
+
+(* ... and below ANY node that set the bypass (an internal CD=1 / subnet-bearing sub-query), as long as
+   no writer above admits *)
+Theorem below_a_bypass_nothing_is_recorded : forall pol t m,
+  Forall (fun r => r = false) (tree_records pol (mk_dctx m true) false t).
+Proof. exact bypass_records_nothing. Qed.
+Print Assumptions below_a_bypass_nothing_is_recorded.
+
+(* what IS recorded: the denial learnt at a node, iff its response has CD clear and its own writer or a
+   writer above admits *)
+Theorem recorded_iff_some_writer_on_the_way_up_admits : forall pol ctx above cd remote opts res_cd ch,
+  exists p rest_p rest_r,
+    tree_perms pol ctx (RNode cd remote opts res_cd ch) = p :: rest_p /\
+    tree_records pol ctx above (RNode cd remote opts res_cd ch) = (negb res_cd && (above || dp_create p)) :: rest_r.
+Proof. exact records_head. Qed.
+Print Assumptions recorded_iff_some_writer_on_the_way_up_admits.
+
+(* the per-node permission alone does NOT decide what becomes shared in an OPEN tree (root without CD /
+   subnet option): the trees of seeds 4 and 7 — leaf with dp_create = false, denial recorded through the
+   first alias' / the root's writer — and the counterpart with a CD-marked proof (computed) *)
+Theorem relay_examples_thm :
+  let c := mk_ipb 16 42545467968902514347457477332583654727 in
+  let i := mk_ipb 16 281472812450047 in
+  let t4 := RNode false c None false [RNode false i (Some []) false [RNode false i (Some []) true [RNode true i (Some []) false []]]] in
+  let t7 := RNode false c (Some []) false [RNode false i (Some []) true [RNode true i (Some []) false [RNode false i (Some []) false []]]] in
+  let tc := RNode false c (Some []) false [RNode false i (Some []) false [RNode false i (Some []) true []]] in
+  let pol := policy_of (mk_bargs true 0 0 0 0 []) in
+  map dp_create (tree_perms pol (mk_dctx false false) t4) = [true; true; false; false] /\
+  tree_records pol (mk_dctx false false) false t4 = [true; true; false; true] /\
+  map dp_create (tree_perms pol (mk_dctx false false) t7) = [true; false; false; false] /\
+  tree_records pol (mk_dctx false false) false t7 = [true; false; true; true] /\
+  map dp_create (tree_perms pol (mk_dctx false false) tc) = [true; true; false] /\
+  tree_records pol (mk_dctx false false) false tc = [true; true; false].
+Proof. exact relay_examples. Qed.
+Print Assumptions relay_examples_thm.
+
 (* ---------------------------------------------------------------- RFC 9520 failure state *)
 (* A cached resolution failure is not a synthesised denial and carries no authority scope; it is filed
    like an answer under (question, CD, request scope).  The SHARED failure entry answers a query only when
